@@ -69,10 +69,34 @@ def _filter_mains():
         inp = {"sum": "items", "base64_decode": "t | base64_encode",
                "base64_url_safe_decode": "t | base64_url_safe_encode"}.get(name, inp)
         groups[grp].append("{{ %s | %s%s }}" % (inp, name, (": " + ", ".join(args)) if args else ""))
+    groups["num"] += ["{{ y | round }}", "{{ tie | round: 2 }}", "{{ tie | round }}"]
+    # number / currency / unit formatting (extra filters) of exact ties, in a template of its own:
+    # rounding behaviour that some other filter changed for the whole process shows between renders
+    groups["xfmt"] = ["{{ tie | money }}", "{{ tie | currency }}", "{{ tie | decimal }}", "{{ tie | unit: 'kilometer' }}",
+                      "{{ tie | money_with_currency }}", "{{ tie | money_without_currency }}",
+                      "{{ y | decimal }}", "{{ ts | datetime }}", "{{ tie | plus: 0.125 }}", "{{ tie | times: 3 }}",
+                      "{{ tie | divided_by: 0.5 }}", "{{ items | sum }}"]
     return ["F%s[%s]" % (g, "|".join(v)) for g, v in sorted(groups.items())]
 
 
 FILTER_MAINS = _filter_mains()
+
+# parses that are rejected (aborted parses): whatever they leave behind in the environment, its
+# memoised parser or the process must not change what later templates do
+_DEEP = 31
+BAD_MAINS = [
+    "{% if true %}" * _DEEP + "x" + "{% endif %}" * _DEEP,                    # one level over the default nesting limit
+    "{% for i in (1..2) %}" * 6 + "{{ i }}" + "{% endfor %}" * 6,              # over the small limits of some recipes
+    "{% for i in items %}{{ i }",                                            # unclosed
+    "{% if %}x{% endif %}", "{{ x | }}", "{% endfor %}", "{% unknown_tag %}", "{% if x %}{% else %}{% else %}{% endif %}",
+    "{% liquid\nif true\nif true\necho 1\n%}",
+    "{% capture %}x{% endcapture %}", "{% case %}{% endcase %}", "{{ 'unterminated }}",
+]
+DEEP_OK_MAINS = [
+    "{% if true %}" * (_DEEP - 1) + "{{ x }}" + "{% endif %}" * (_DEEP - 1),   # exactly at the default limit
+    "{% if true %}{% for i in (1..2) %}{% unless false %}{{ i }}{% endunless %}{% endfor %}{% endif %}",
+    "{% if true %}{{ x }}{% endif %}",
+]
 
 
 class CachingSimLoader(CachingLoaderMixin, StaticSimLoader):
@@ -117,8 +141,30 @@ def make_data(spec, loop):
 # building an environment from its JSON spec (used by the history AND by the pristine fork)
 
 
-def build_world(es, loop_ref):
-    sources = {nm: G.render_source(t) if not isinstance(t, str) else t for nm, t in es["templates"].items()}
+class LazyMains:
+    """Parse outcomes of an environment's main templates, each parsed when first asked for.  The
+    history parses them all up front in index order; a reference parses exactly what its probe
+    needs (a parse must not depend on which other templates the environment parsed before)."""
+
+    def __init__(self, env, srcs):
+        self.env = env
+        self.srcs = srcs
+        self.done = {}
+
+    def __getitem__(self, i):
+        if i not in self.done:
+            self.done[i] = outcome(lambda: self.env.from_string(self.srcs[i], name="main%d" % i))
+        return self.done[i]
+
+    def __setitem__(self, i, v):
+        self.done[i] = v
+
+
+def build_world(es, loop_ref, lazy=False):
+    # every named template ends by printing `tg`, an environment global that a request's own
+    # globals (get_template(name, globals=...)) may override
+    sources = {nm: (G.render_source(t) if not isinstance(t, str) else t) + "[{{ tg }}]"
+               for nm, t in es["templates"].items()}
     kind = es["loader"]
     kw = dict(auto_reload=es["auto_reload"], namespace_key=es["ns_key"], capacity=es["capacity"])
     store = {("", nm): src for nm, src in sources.items()}
@@ -135,8 +181,10 @@ def build_world(es, loop_ref):
         subs = [DictLoader({n: sources[n] for n in names[::2]}),
                 StaticSimLoader({("", n): sources[n] for n in names[1::2]}, loop_ref, "sync", namespaced=False)]
         ld = ChoiceLoader(subs) if kind == "choice" else CachingChoiceLoader(subs, **kw)
-    env = G.build_env(es["recipe"], ld)
+    env = G.build_env({**es["recipe"], "globals": {**es["recipe"]["globals"], "tg": "E"}}, ld)
     main_src = [G.render_source(t) if not isinstance(t, str) else t for t in es["mains"]]
+    if lazy:
+        return env, LazyMains(env, main_src), main_src
     mains = [outcome(lambda s=s, i=i: env.from_string(s, name="main%d" % i)) for i, s in enumerate(main_src)]
     return env, mains, main_src
 
@@ -147,7 +195,7 @@ def get_target(env, mains, op):
         if t[0] == "err":
             raise type(t[1], (Exception,), {})()
         return t[1]
-    return env.get_template(op["name"])
+    return env.get_template(op["name"], globals=op.get("tglobals"))
 
 
 async def get_target_async(env, mains, op):
@@ -195,12 +243,12 @@ def _evaluate_probe(probe):
         return norm(outcome(lambda: liquid.Template(probe["source"], **probe["kwargs"]).render(**data)))
     loop_ref = [None]
     if probe["mode"] == "sync":
-        env, mains, _ = build_world(probe["env"], loop_ref)
+        env, mains, _ = build_world(probe["env"], loop_ref, lazy=True)
         data = make_data(probe["data"], None)
         return norm(outcome(lambda: get_target(env, mains, probe["op"]).render(**data)))
     loop = SimLoop(Rng(0, ("ref",)), step_cap=400000, lat_profile={"max": 0.0, "zero_p": 1.0, "stall_p": 0.0})
     loop_ref[0] = loop
-    env, mains, _ = build_world(probe["env"], loop_ref)
+    env, mains, _ = build_world(probe["env"], loop_ref, lazy=True)
     data = make_data(probe["data"], loop)
 
     async def go():
@@ -276,6 +324,7 @@ def fp_env(env):
 class C17:
     PROP = "C17"
     LEVEL = "exploration"
+    NO_PIN = True   # no baton threads here: let the OS scheduler place the workers
     RUN_S = 240   # watchdog allowance per run: every reference costs a (system-wide serialised) fork
     RUNS_FORK_THEMSELVES = True
     TIERS = {
@@ -339,6 +388,10 @@ class C17:
                 mains.append(DATE_MAIN)
             if rng.chance(0.6):
                 mains.extend(FILTER_MAINS)
+            if rng.chance(0.3):
+                for _ in range(rng.randint(1, 2)):
+                    mains.insert(rng.randint(0, len(mains)), rng.choice(BAD_MAINS))
+                mains.insert(rng.randint(0, len(mains)), rng.choice(DEEP_OK_MAINS))
             envs.append({"recipe": recipe, "loader": rng.choice(["dict", "cdict", "sim", "csim", "choice", "cchoice"]),
                          "ns_key": "", "capacity": rng.choice([1, 2, 300]), "auto_reload": rng.chance(0.7),
                          "templates": templates, "mains": mains})
@@ -352,6 +405,7 @@ class C17:
             if rng.chance(0.7):
                 datas.append(self._twin(rng, d))
         uid = [0]
+        with_tglobals = rng.chance(0.4)
 
         def gen_op():
             uid[0] += 1
@@ -373,11 +427,16 @@ class C17:
                 op["main"] = rng.randrange(len(envs[e]["mains"]))
                 return op
             op["data"] = rng.randrange(len(datas))
-            if rng.chance(0.8):
+            if rng.chance(0.55 if with_tglobals else 0.8):
                 op["main"] = rng.randrange(len(envs[e]["mains"]))
             else:
                 op["name"] = rng.choice(list(envs[e]["templates"]))
             op["mode"] = rng.choice(["sync", "async"])
+            if with_tglobals and "name" in op:
+                # request globals on a (possibly cached, shared) template: the request and its render
+                # are one synchronous step, so no other request can re-assign them in between
+                op["mode"] = "sync"
+                op["tglobals"] = rng.choice([None, None, {"tg": "T1"}, {"tg": "T2", "site": "TS"}, {}])
             op["fp"] = rng.chance(0.5)
             if op["mode"] == "async" and rng.chance(0.12):
                 op["cancel_after"] = round(rng.random() * 0.01, 5)
@@ -496,7 +555,7 @@ class C17:
             probe = {"kind": "implicit", "source": src, "kwargs": op["kwargs"], "data": dspec, "clock": p["clock"]}
             key = digest(("imp", src, op["kwargs"], dspec, p["clock"]))
         else:
-            tgt = {k: op[k] for k in ("main", "name") if k in op}
+            tgt = {k: op[k] for k in ("main", "name", "tglobals") if k in op}
             probe = {"kind": "render", "env": sc["envs"][e], "op": tgt, "data": dspec, "clock": p["clock"],
                      "mode": p["mode"]}
             key = digest(("r", sc["envs"][e], tgt, dspec, p["clock"], p["mode"]))
@@ -508,7 +567,7 @@ class C17:
         warnings.simplefilter("ignore")
         loop = SimLoop(Rng(0, ("var",)), step_cap=800000, lat_profile={"max": 0.0, "zero_p": 1.0, "stall_p": 0.0})
         loop_ref = [loop]
-        worlds = [build_world(es, loop_ref) for es in sc["envs"]]
+        worlds = [build_world(es, loop_ref, lazy=True) for es in sc["envs"]]
         out = {}
 
         async def root():
